@@ -208,7 +208,9 @@ pub fn run(ctx: &Ctx) -> i32 {
     let t = ctx.tier;
     if std::env::var("VERIF_ONLY_HUGE").is_ok() {
         let mut rep = Report::new();
-        huge_lengths("C01", &huge_list(false), TOL_MULT, &mut rep);
+        // debugging aid: only the huge-length part, at this tier's list, tolerance multiplier from VERIF_HUGE_TOL
+        let tm: f64 = std::env::var("VERIF_HUGE_TOL").ok().and_then(|s| s.parse().ok()).unwrap_or(TOL_MULT);
+        huge_lengths("C01", &huge_list(t == crate::framework::Tier::Thorough), tm, &mut rep);
         std::env::set_var("VERIF_EVIDENCE_PART", "debug");
         return finalize(ctx, rep);
     }
